@@ -142,7 +142,7 @@ def rule_wrapper(ctx):
                f"permission looked up with `{src(a) if a is not None else None}` ({lab}), not with the resolved virtual path of the request",
                construct=f"lookup:{src(a) if a is not None else None}:{lab}")
         recv = c.func.value
-        ctx.ob("C04.ARG", c, "the entry is looked up on the session's user", src(recv) == f"{conn}.user",
+        ctx.ob("C04.ARG", c, "the entry is looked up on the session's user", dsrc(p, recv, w) == f"{conn}.user",
                f"permission looked up on `{src(recv)}`, not on the session's user", construct=f"lookup recv:{src(recv)}")
     # arity
     fparam = p.wrapped_param("PathPermissions")
@@ -171,6 +171,7 @@ def rule_wrapper(ctx):
     def perm_test(t):
         """-> polarity-normalised: returns ('attr', negated) if t is (not)? getattr(<perm_var>, <loop var>) or <perm_var>.<const>"""
         neg = False
+        t = deep_expand(p, t, w, stop={perm_var} | set(loop_vars))
         while isinstance(t, ast.UnaryOp) and isinstance(t.op, ast.Not):
             t, neg = t.operand, not neg
         if isinstance(t, ast.Call) and isinstance(t.func, ast.Name) and t.func.id == "getattr" and len(t.args) in (2, 3):
